@@ -122,6 +122,8 @@ pub fn derive(src: &ArrDesc, how: &Derivation) -> Option<(Box<dyn ArrivalBound>,
 pub fn exact_range(src: &ArrDesc) -> Option<u64> {
     match src {
         ArrDesc::Periodic(_) | ArrDesc::Sporadic(..) | ArrDesc::Extrap(_) | ArrDesc::Never => None,
+        // no deterministic process at all: the stream checks are skipped for such sources
+        ArrDesc::Poisson(..) => Some(0),
         ArrDesc::Curve(v) => Some(*v.last().unwrap_or(&0)),
         ArrDesc::Prefix(h, _) => Some(*h),
         ArrDesc::Jittered(a, j) | ArrDesc::Propagated(a, j) => {
@@ -147,8 +149,56 @@ fn replay_text(kind: &str, model: &ArrDesc, extra: &str, expect: &str, note: &st
     )
 }
 
+/// A source that never releases anything (structurally).
+pub fn never_releases(m: &ArrDesc) -> bool {
+    match m {
+        ArrDesc::Never => true,
+        ArrDesc::Jittered(a, _) | ArrDesc::Propagated(a, _) | ArrDesc::Rc(a) => never_releases(a),
+        ArrDesc::Vec(v) | ArrDesc::Slice(v) => v.iter().all(never_releases),
+        ArrDesc::SumOf(a, b) => never_releases(a) && never_releases(b),
+        ArrDesc::Prefix(_, steps) => steps.is_empty(),
+        _ => false,
+    }
+}
+
+/// Does the source contain a probabilistic bound (no deterministic event process)?
+pub fn has_poisson(m: &ArrDesc) -> bool {
+    match m {
+        ArrDesc::Poisson(..) => true,
+        ArrDesc::Jittered(a, _) | ArrDesc::Propagated(a, _) | ArrDesc::Rc(a) => has_poisson(a),
+        ArrDesc::Vec(v) | ArrDesc::Slice(v) => v.iter().any(has_poisson),
+        ArrDesc::SumOf(a, b) => has_poisson(a) || has_poisson(b),
+        _ => false,
+    }
+}
+
+/// `ApproximatedPoisson` sources: `number_arrivals(1)` may be 0, the first step may lie at
+/// delta > 1 and jump by several jobs (alone, doubled, or next to a periodic model).  Rates are
+/// kept small: the library's naive evaluation does not terminate once rate * delta exceeds what
+/// a factorial in f64 can represent.
+fn poisson_source(rng: &mut Rng) -> ArrDesc {
+    let p = ArrDesc::Poisson(rng.range(20, 150), *rng.pick(&[1u64, 10, 100, 500, 2000]));
+    match rng.below(4) {
+        0 => p,
+        1 => ArrDesc::Vec(vec![p.clone(), p]),
+        2 => ArrDesc::Vec(vec![p, ArrDesc::Poisson(rng.range(20, 150), 500)]),
+        _ => ArrDesc::SumOf(Box::new(p), Box::new(ArrDesc::Periodic(rng.range(20, 200)))),
+    }
+}
+
 pub fn random_source(rng: &mut Rng) -> ArrDesc {
     let period = rng.range(2, 40);
+    if rng.chance(1, 16) {
+        return poisson_source(rng);
+    }
+    if rng.chance(1, 40) {
+        // a source that never releases anything (alone or as a member)
+        return match rng.below(3) {
+            0 => ArrDesc::Never,
+            1 => ArrDesc::Vec(vec![ArrDesc::Never, ArrDesc::Never]),
+            _ => ArrDesc::Jittered(Box::new(ArrDesc::Never), rng.below(20)),
+        };
+    }
     match rng.below(12) {
         0 => ArrDesc::Periodic(period),
         1..=3 => {
@@ -300,6 +350,28 @@ fn derived_case(sh: &DerivedShared, k: u64, rng: &mut Rng, acc: &mut Acc) {
             }
         }
     };
+    // a delta-min `Curve` cannot describe a source that never releases two jobs (its constructor
+    // asserts a non-empty vector): only the step-based prefix is derived from such sources
+    let silent = never_releases(&src);
+    let how = if silent {
+        Derivation::PrefixUntil(rng.range(1, 400))
+    } else {
+        how
+    };
+    let probabilistic = has_poisson(&src);
+    let how = if probabilistic {
+        // bounded horizons only (see `poisson_source`)
+        match how {
+            Derivation::PrefixUntil(h) => Derivation::PrefixUntil(h.min(300)),
+            Derivation::FromArrivalBoundUntil(h) => Derivation::FromArrivalBoundUntil(h.min(300)),
+            _ => Derivation::FromArrivalBoundUntil(rng.range(1, 300)),
+        }
+    } else {
+        how
+    };
+    if probabilistic {
+        acc.counters.inc("case.probabilistic_source");
+    }
     match &how {
         Derivation::FromArrivalBound(_) => acc.counters.inc("case.from_arrival_bound"),
         Derivation::FromArrivalBoundUntil(_) => acc.counters.inc("case.from_arrival_bound_until"),
@@ -345,6 +417,14 @@ fn derived_case(sh: &DerivedShared, k: u64, rng: &mut Rng, acc: &mut Acc) {
             return;
         }
     };
+    if probabilistic {
+        // no deterministic event process: the pointwise comparison is all there is
+        acc.counters.inc("runs");
+        let fpv = hash_str(&format!("poisson/{}/{}", src, how.text()));
+        sh.fps.insert(fpv);
+        acc.digest_add(fpv);
+        return;
+    }
     // stream refinement, source → derived: every documented stream of the source is admissible
     // for the derived object, far beyond the covered prefix
     let horizon = (cov * 6 + 60).min(3000);
